@@ -43,9 +43,9 @@ func drawC03b(t *rapid.T) *c03bScenario {
 		for j := 0; j < n; j++ {
 			switch rapid.SampledFrom([]string{"cpu", "cpu", "memory", "gpu", "pods"}).Draw(t, fmt.Sprintf("%s_res%d", l, j)) {
 			case "cpu":
-				np.Spec.Limits[corev1.ResourceCPU] = resource.MustParse(rapid.SampledFrom([]string{"0", "2", "4", "5", "8", "9", "16", "20", "33"}).Draw(t, fmt.Sprintf("%s_cpu%d", l, j)))
+				np.Spec.Limits[corev1.ResourceCPU] = resource.MustParse(rapid.SampledFrom([]string{"0", "2", "4", "5", "8", "9", "16", "20", "33", "1950m", "3900m", "3950m", "7900m", "7500m", "15900m"}).Draw(t, fmt.Sprintf("%s_cpu%d", l, j)))
 			case "memory":
-				np.Spec.Limits[corev1.ResourceMemory] = resource.MustParse(rapid.SampledFrom([]string{"2Gi", "6Gi", "8Gi", "20Gi", "48Gi"}).Draw(t, fmt.Sprintf("%s_mem%d", l, j)))
+				np.Spec.Limits[corev1.ResourceMemory] = resource.MustParse(rapid.SampledFrom([]string{"2Gi", "6Gi", "8Gi", "20Gi", "48Gi", "3900Mi", "8000Mi", "16200Mi", "32600Mi"}).Draw(t, fmt.Sprintf("%s_mem%d", l, j)))
 			case "gpu":
 				np.Spec.Limits[corev1.ResourceName(gen.GPU)] = resource.MustParse(rapid.SampledFrom([]string{"0", "1", "2", "3"}).Draw(t, fmt.Sprintf("%s_gpu%d", l, j)))
 			case "pods":
